@@ -72,6 +72,11 @@ pub struct Plan {
     /// script regenerating its inputs would
     #[serde(default)]
     pub reuse_paths: bool,
+    /// threads 0 and 1 deliver into ONE directory: thread 0 with the TypeScript backend only
+    /// (`generated.ts`), thread 1 with the rasn backend only (`generated.rs`) — two files, each
+    /// written by one thread only, so each must hold exactly what its own thread compiled
+    #[serde(default)]
+    pub shared_dir: bool,
     /// xmod scenario: the same inputs with the shared bare name renamed apart, used to classify
     /// a violation as the known finding F1 (it disappears) or as something else
     #[serde(default)]
@@ -292,6 +297,7 @@ impl Scenario for C11Threads {
     fn plan(&self, seed: u64, idx: u64, _tier: Tier, env: &Env) -> Value {
         let root = Rng::new(seed);
         let mut w = root.fork("workload");
+        let mut bmid = root.fork("builder-mid");
         // ---- inputs
         let mut inputs: Vec<Input> = vec![];
         let use_corpus = !self.xmod && !self.fine && !self.fmt && !env.corpus.is_empty() && w.chance(1, 4);
@@ -392,7 +398,7 @@ impl Scenario for C11Threads {
                     arr,
                     backend: w.pick(&backends).clone(),
                     files: w.chance(1, 3),
-                    bp: BuilderPath { output_first: w.chance(1, 2), batch_paths: w.chance(1, 2), swap_backend: w.chance(1, 6), swap_late: false, legacy_path: false },
+                    bp: BuilderPath { output_first: w.chance(1, 2), batch_paths: w.chance(1, 2), swap_backend: w.chance(1, 6), swap_late: false, legacy_path: false, output_mid: bmid.chance(1, 5) },
                     to_file: false,
                 });
             }
@@ -427,6 +433,27 @@ impl Scenario for C11Threads {
             for h in ops.iter_mut() {
                 for op in h.iter_mut() {
                     op.to_file = tf.chance(1, 5);
+                }
+            }
+        }
+        let shared_dir = !self.fmt && !self.fine && ops.len() >= 2 && mix(seed, 0x5a4ed) % 3 == 0;
+        if shared_dir {
+            for (t, h) in ops.iter_mut().enumerate() {
+                for (k, op) in h.iter_mut().enumerate() {
+                    if t >= 2 {
+                        op.to_file = false;
+                        continue;
+                    }
+                    if k == 0 {
+                        op.to_file = true;
+                    }
+                    if op.to_file {
+                        op.backend = match (t, &op.backend) {
+                            (0, _) => BackendSel::Ts,
+                            (_, BackendSel::Ts) => BackendSel::Rasn(sut::RasnCfg::default_cfg()),
+                            (_, b) => b.clone(),
+                        };
+                    }
                 }
             }
         }
@@ -509,7 +536,7 @@ impl Scenario for C11Threads {
         } else {
             None
         };
-        serde_json::to_value(&Plan { seed, inputs, ops, sim: simcfg, schedule: None, reuse_paths, apart, fmt_mode }).unwrap()
+        serde_json::to_value(&Plan { seed, inputs, ops, sim: simcfg, schedule: None, reuse_paths, shared_dir, apart, fmt_mode }).unwrap()
     }
 
     /// One pristine grandchild per (input, backend) key: canonical arrangement, literals,
@@ -609,7 +636,10 @@ impl Scenario for C11Threads {
                         .enumerate()
                         .map(|(i, txt)| {
                             let path = format!("{dir}/s{i}.asn");
-                            if p.reuse_paths {
+                            if p.shared_dir {
+            out.count("probe.two_threads_deliver_into_one_directory", 1);
+        }
+        if p.reuse_paths {
                                 late_writes.push((path.clone(), txt.clone()));
                             } else {
                                 std::fs::write(&path, txt).unwrap();
@@ -624,10 +654,15 @@ impl Scenario for C11Threads {
                 n_ops += 1;
             }
             let thread_root = root.to_string();
+            let shared_dir = p.shared_dir;
             bodies.push(Box::new(move || {
                 let mut results = vec![];
-                let out_path = format!("{thread_root}/t{t}/bindings.out");
+                let shared = shared_dir && t < 2;
+                let out_path = if shared { format!("{thread_root}/shared-out") } else { format!("{thread_root}/t{t}/bindings.out") };
                 let _ = std::fs::create_dir_all(format!("{thread_root}/t{t}"));
+                if shared {
+                    let _ = std::fs::create_dir_all(&out_path);
+                }
                 for (k, (be, srcs, bp, late_writes, to_file)) in prepared.into_iter().enumerate() {
                     if !late_writes.is_empty() {
                         // harness I/O: outside the seam (not a simulated call, no yield point)
@@ -645,7 +680,8 @@ impl Scenario for C11Threads {
                             // harness I/O: outside the seam
                             let tid = crate::sched::current_tid();
                             shim::register_thread(-1);
-                            r.generated = std::fs::read_to_string(&out_path).unwrap_or_else(|e| format!("<cannot read the delivered file: {e}>"));
+                            let delivered = if shared { format!("{out_path}/generated{}", be.ext()) } else { out_path.clone() };
+                            r.generated = std::fs::read_to_string(&delivered).unwrap_or_else(|e| format!("<cannot read the delivered file: {e}>"));
                             shim::register_thread(tid);
                         }
                         r
